@@ -174,7 +174,7 @@ func reduceHistory(base string, ops []Op) (out []Op, dropped int) {
 }
 
 func removableIndex(base string, ops []Op) int {
-	blank := base == "new" || base == "strict"
+	blank := base == "new" || base == "strict" || base == "striptags"
 	state := map[string]string{}
 	if blank {
 		for k, v := range blankDefaults {
